@@ -87,3 +87,28 @@ Definition ok_conc (c : ncase) : bool :=
                      obs_eqb (snd (step (nc_b c) sb (fst co))) (snd co) ||
                      obs_eqb (snd (step (nc_a c) sa' (fst co))) (snd co)) (nc_reads c).
 Definition mismatches_conc := mismatches ok_conc.
+
+(* ---- candidate iteration with Metadata.Timeout set ---- *)
+(* as [rcase], but the calls run under a deadline: when it passes is not observable, so any moment is accepted
+   (the deadline stream is k times "not yet", then "passed" for ever) *)
+Definition dl_at (k : nat) : list bool := repeat false k ++ repeat true 24.
+
+Fixpoint run_rounds_d (attempts : nat) (brokers unreachable : list Z) (c : cands) (rs : list round) : bool :=
+  match rs with
+  | [] => true
+  | r :: rest =>
+    existsb (fun order => existsb (fun k =>
+      let c0 := {| seeds := seeds c; dead := dead c; known := order |} in
+      let '(c1, res, tr, _) := refresh_d (answer_of (rd_fail r)) attempts c0 [] (dl_at k) in
+      let seen := filter (fun l => negb (mem l unreachable)) (map listener tr) in
+      list_eqb Z.eqb seen (rd_tried r) &&
+      match res with
+      | RSuccess b => rd_ok r && run_rounds_d attempts brokers unreachable {| seeds := seeds c1; dead := dead c1; known := brokers |} rest
+      | ROutOfBrokers => negb (rd_ok r) && run_rounds_d attempts brokers unreachable c1 rest
+      | RAuth _ => false
+      end) (seq 0 14)) (perms (known c))
+  end.
+
+Definition ok_dl (c : rcase) : bool :=
+  run_rounds_d (rc_attempts c) (rc_brokers c) (rc_unreachable c) {| seeds := rc_seeds c; dead := []; known := [] |} (rc_rounds c).
+Definition mismatches_dl := mismatches ok_dl.
